@@ -144,10 +144,39 @@ def scen_after_fork():
     return None
 
 
+def scen_finalizer_during_flush():
+    """a GC finalizer runs free() while the heap is flushing its deferred frees (the lock is held, so the block is
+    deferred too): a block given back at that moment must end up freed or still pending -- never dropped"""
+    h = H.Heap(4096)
+    a, b, c = h.malloc(1024), h.malloc(1024), h.malloc(1024)
+    h._lock.acquire()
+    h.free(a)                           # deferred: the lock is taken
+    h._lock.release()
+    real_free, fired = h._free, []
+
+    def free_with_finalizer(block):
+        if not fired:
+            fired.append(1)
+            h.free(c)                   # what a finalizer triggered by an allocation inside the flush does
+        return real_free(block)
+    h._free = free_with_finalizer
+    h.free(b)                           # takes the lock, flushes the pending list, frees b
+    del h._free
+    if c in h._allocated_blocks and c not in h._pending_free_blocks:
+        return ('block %r was given back by a finalizer while the deferred frees were being flushed: it is neither freed '
+                'nor pending any more (still counted as live; pending list %r) -- the storage is lost' % (
+                    (c[1], c[2]), h._pending_free_blocks))
+    h.malloc(8)                         # a later call drains whatever is still pending
+    if c in h._allocated_blocks:
+        return 'block %r given back during a flush is still live after the next malloc()' % ((c[1], c[2]),)
+    bad = invariant(h)
+    return '; '.join(bad) if bad else None
+
+
 def main():
     data = json.load(open(sys.argv[1]))
     print('replay of %s / %s' % (data['function'], data['obligation']))
-    r = scen_lock_taken() or scen_after_fork()
+    r = scen_lock_taken() or scen_after_fork() or scen_finalizer_during_flush()
     if r:
         print('  violation on real code: ' + r)
         print('REPRODUCED on real code')
